@@ -56,6 +56,14 @@ def gen(rng, idx, tier):
     kind = CLIENTS[idx % 4]
     n = rng.choice([1, 2, 4, 8, 12])
     out = []
+    if rng.random() < 0.06 and kind != "actisense":
+        # eight talkers taking turns with fast-packet messages on one long-lived encoder/decoder pair: every stream comes
+        # back exactly when the sender's shared 3-bit counter has wrapped
+        fasts = [f for f in fx if f["fast"]]
+        talkers = [_addressed(rng, rng.choice(fasts)) for _ in range(8)]
+        for i in range(rng.choice([17, 24])):
+            out.append(dict(talkers[i % 8]))
+        n = 0
     for _ in range(n):
         k = rng.random()
         pool = short if (k < 0.25 and short) else (fsl if k < 0.5 and fsl else fx)
